@@ -1,6 +1,8 @@
 package rules
 
 import (
+	"go/types"
+	"go/token"
 	"fmt"
 	"sort"
 
@@ -18,6 +20,7 @@ func init() {
 			"ComputeEvictionList may evict from is on the `preferredPeersHolder.Contains(pid) == false` branch for that peer (whatever the category: seeder, unknown, validator, observer, full history). " +
 			"(S2) a peer is put in at most one category per pass (at most one insertion on any path through the loop body) and each category is passed to evict exactly once, so no peer is proposed twice. " +
 			"(S3) the proposed list is built only from evict(category list, quota) results, the category lists come from splitPeerIds of the given peer list, and the given list is used for nothing else. " +
+			"Every pass of splitPeerIds for a non-preferred peer inserts it in a category (paths excluding every declared constant of an enumerated type are pruned). " +
 			"Not decided (value-level): the quota cascade arithmetic (computeUsedAndSpare), which peers are kept by distance.",
 		Run: runC44,
 	})
@@ -95,6 +98,28 @@ func runC44(c *core.Ctx) {
 	}
 	_ = body
 	c.Check(!twice, "C44/each-peer-at-most-once", "listsSharder.splitPeerIds/one-category-per-peer", sp.Pos(), "no path through the loop body inserts a peer in two categories", "a peer can be inserted in two categories in one pass and be proposed for eviction twice")
+	// S2a' at least one: a peer that is not preferred lands in some category (a peer in no category is
+	// never proposed for eviction and the connection count exceeds its quota)
+	{
+		isPreferredEdge := func(b *ssa.BasicBlock, si int) bool {
+			ifi, ok := b.Instrs[len(b.Instrs)-1].(*ssa.If)
+			if !ok {
+				return false
+			}
+			cond, on := ifi.Cond, 0
+			if u, isU := cond.(*ssa.UnOp); isU && u.Op == token.NOT {
+				cond, on = u.X, 1
+			}
+			call, isC := cond.(*ssa.Call)
+			return isC && isInvoke(&call.Call, "Contains") && isRecvField(sp, call.Call.Value, "preferredPeersHolder") && si == on
+		}
+		esc, path := core.PathQ{Fn: sp, FromBlk: body, Via: func(in ssa.Instruction) bool { return set[in] },
+			ViaEdge: isPreferredEdge, Prune: enumExhausted,
+			Target: func(in ssa.Instruction, _ *ssa.BasicBlock) bool { return in == loop.Header.Instrs[0] }}.Escape()
+		c.Check(esc == nil, "C44/each-peer-at-most-once", "listsSharder.splitPeerIds/every-candidate-categorised", sp.Pos(),
+			"every pass for a peer that is not preferred inserts it in a category (branches that exclude every declared value of an enumerated type are not paths)",
+			"a pass of the loop for a non-preferred peer ends without putting it in any category ("+c.P.PathString(path)+"): that connection is never proposed for eviction, so the kept connections exceed the quotas")
+	}
 	// S2b/S3 ComputeEvictionList
 	var split ssa.Value
 	for _, in := range callsMatching(ce, pkg, "listsSharder", "splitPeerIds") {
@@ -214,4 +239,62 @@ func arithOperands(v ssa.Value) []ssa.Value {
 		return arithOperands(x.X)
 	}
 	return []ssa.Value{v}
+}
+
+// enumExhausted prunes a CFG edge on which the conditions known so far exclude every declared
+// constant of the tested expression's named type (a `switch` over an enumerated type with all
+// values handled has no fall-through path).
+func enumExhausted(b *ssa.BasicBlock, si int) bool {
+	excluded := map[string]map[string]bool{}
+	typeOf := map[string]*types.Named{}
+	for _, cd := range core.CondsOnEdge(b, si) {
+		bo, ok := cd.V.(*ssa.BinOp)
+		if !ok || bo.Op != token.EQL && bo.Op != token.NEQ {
+			continue
+		}
+		ne := bo.Op == token.NEQ && cd.Taken || bo.Op == token.EQL && !cd.Taken
+		if !ne {
+			continue
+		}
+		x, k := bo.X, bo.Y
+		if _, isC := x.(*ssa.Const); isC {
+			x, k = k, x
+		}
+		kc, isC := k.(*ssa.Const)
+		if !isC || kc.Value == nil {
+			continue
+		}
+		named, isNamed := x.Type().(*types.Named)
+		if !isNamed {
+			continue
+		}
+		key := core.ExprKey(x)
+		if excluded[key] == nil {
+			excluded[key] = map[string]bool{}
+		}
+		excluded[key][kc.Value.ExactString()] = true
+		typeOf[key] = named
+	}
+	for key, ex := range excluded {
+		named := typeOf[key]
+		pkg := named.Obj().Pkg()
+		if pkg == nil {
+			continue
+		}
+		total, hit := 0, 0
+		for _, nm := range pkg.Scope().Names() {
+			cst, ok := pkg.Scope().Lookup(nm).(*types.Const)
+			if !ok || !types.Identical(cst.Type(), named) {
+				continue
+			}
+			total++
+			if ex[cst.Val().ExactString()] {
+				hit++
+			}
+		}
+		if total > 0 && hit == total {
+			return true
+		}
+	}
+	return false
 }
